@@ -13,8 +13,26 @@ THEOREM = 'C01_queries_are_closure / C01_include_source / C01_factory_total'
 FACTORIES = ['idx', 'inc', 'bld']
 
 
+def forms(x):
+    """the ways the node can be handed to a query: TermId, CURIE with ':' and - when legal - with '_', identified object, a
+    user-defined TermId subclass"""
+    p, i = G.key_of(x)
+    out = [['tid', x], ['str', G.value_of(x)], ['ident', x], ['utid', x]]
+    if p and '_' not in p and ':' not in i and '_' not in i:
+        out.append(['str', p + '_' + i])
+    return out
+
+
 def calls_for(nodes):
-    return [['query', q, ['tid', x], incl] for x in nodes for q in 'PCAD' for incl in (False, True)]
+    # every node x query x flag as TermId, and once more in another argument form (rotating through the forms)
+    calls = [['query', q, ['tid', x], incl] for x in nodes for q in 'PCAD' for incl in (False, True)]
+    k = 0
+    for x in nodes:
+        fs = forms(x)[1:]
+        for q in 'PCAD':
+            calls.append(['query', q, fs[k % len(fs)], k % 2 == 0])
+            k += 1
+    return calls
 
 
 def cases_for(edges):
@@ -56,12 +74,7 @@ def gen(chk):
     # dense graphs: more edges than an 8-bit index can count on fewer than 256 nodes (index arrays sized by the node
     # count must not be used for edge offsets)
     for m in ([24] if not thorough else [24, 27, 30]):
-        labels = rng.sample(G.POOL_PLAIN[:150], m)
-        order = sorted(labels, key=G.key_of)
-        rng.shuffle(order)
-        es = [[order[i], order[j]] for i in range(m) for j in range(i) if (i - j) <= 14 or rng.random() < 0.8]
-        rng.shuffle(es)
-        graphs.append(('dense', es))
+        graphs.append(('dense', G.dense_graph(rng, m)))
     return graphs, n_exh
 
 
